@@ -769,6 +769,11 @@ func (i *interpreter) pbDecodeMsg(data value, m value) value {
 			return iface{}
 		}
 	}
+	// random-oracle idealisation: the output of a collision-free hash model never parses as
+	// a protobuf message (chain33 probes 32-byte group headers with Decode)
+	if t, ok := bs[0].(*Term); ok && t.Op == OExtract && t.Args[0].Op == OApp && i.ts.Injective[t.Args[0].Name] {
+		return i.mkError("proto: cannot parse invalid wire-format data")
+	}
 	if err := i.pbDecodeInto(bs, st, T); err != nil {
 		return i.mkError(err.Error())
 	}
